@@ -11,8 +11,17 @@ use crate::sched::{current, suspended, Kind, Sim};
 thread_local! {
     /// workload operation index the calling thread is executing (harness-set)
     static OP_TAG: Cell<u64> = const { Cell::new(0) };
+    static CLIENT_THREAD: Cell<bool> = const { Cell::new(false) };
 }
 
+/// Mark the calling thread as a client thread of the harness (as opposed to a thread the code
+/// under test started itself: its background worker and the blocking threads of that worker).
+pub fn mark_client_thread() {
+    let _ = CLIENT_THREAD.try_with(|c| c.set(true));
+}
+pub fn is_client_thread() -> bool {
+    CLIENT_THREAD.try_with(|c| c.get()).unwrap_or(false)
+}
 pub fn set_op_tag(t: u64) {
     let _ = OP_TAG.try_with(|c| c.set(t));
 }
@@ -113,6 +122,9 @@ pub struct FaultSpec {
     /// same errno; fsync, unlink and the read side keep working. Otherwise every faultable call
     /// of the episode fails with EIO.
     pub space_only: bool,
+    /// only calls made by threads that the code under test started itself can fail (its
+    /// background worker); calls of client threads are neither counted nor failed
+    pub background_only: bool,
 }
 
 #[derive(Clone, Debug)]
@@ -268,6 +280,9 @@ fn decide_latency(sim: &Sim, me: usize) {
 
 /// Should this faultable call fail? Counts it. Returns the spec when it is the chosen one.
 fn take_fault(fs: &mut FsState, op: IoOp) -> Option<FaultSpec> {
+    if matches!(&fs.fault, Some(f) if f.background_only) && is_client_thread() {
+        return None;
+    }
     fs.faultable_seen += 1;
     match &fs.fault {
         Some(f) if f.nth == fs.faultable_seen => {
